@@ -276,6 +276,7 @@ def run_duo(case, make_monitors, oracle=None, key_pred=None):
         A = Probe(cfg, base=case["base"], monitors=make_monitors(), max_iters=10 ** 6)
         B = Probe(dict(cfg, **case.get("cfg_b", {})), base=case["base"] + 1, monitors=make_monitors(), max_iters=10 ** 6)  # B is constructed last
         probes = {"a": A, "b": B}
+        A.abstract, B.abstract = set(), set()
         opno = [0]
         for q in (A, B):
             def begin(q=q):
@@ -330,4 +331,66 @@ def run_duo(case, make_monitors, oracle=None, key_pred=None):
                             + (f"; sampler B differs in {case['cfg_b']}" if case.get("cfg_b") else "") + "]", cc)
         res.outcome(("duo", tuple(sorted((k, repr(v)) for k, v in cfg.items())), seq), nontrivial=True)
     res.sample({"cfg": cfg, "interleavings": len(seqs), "example": list(seqs[len(seqs) // 2]) if seqs else None}, cap=1)
+    return res
+
+
+# ---------------------------------------------------------------------------------------------
+# Resuming a checkpoint in a sampler with OTHER options (the history then holds batches of another size / kernel / cadence):
+# a start from a non-initial state that no run from scratch reaches.
+CROSS = [  # (options of the run that writes the checkpoints, options that differ in the resuming sampler)
+    ({"n_particles": 16}, {"n_particles": 24}), ({"n_particles": 24}, {"n_particles": 8}), ({"n_particles": 16}, {"n_particles": 16, "sample": "rwm"}),
+    ({"resample": "mult"}, {"resample": "syst", "n_particles": 12}), ({"clustering": False}, {"clustering": True, "cluster_every": 2}),
+    ({"clustering": True, "target": "bimodal"}, {"clustering": False, "target": "bimodal"}), ({"clustering": True, "target": "bimodal", "cluster_every": 1}, {"clustering": True, "target": "bimodal", "cluster_every": 3, "n_particles": 24}),
+    ({"ess_ratio": 2.0}, {"ess_ratio": 1.0}), ({"ess_ratio": 1.0}, {"ess_ratio": 3.0, "n_particles": 8}), ({"vv": None}, {"vv": 0.5}), ({"vv": 0.5}, {"vv": None, "n_particles": 24}),
+    ({"eval": "scalar"}, {"eval": "vec"}), ({"eval": "blobs"}, {"eval": "blobs", "n_particles": 8, "resample": "syst"}), ({"boundary": "none"}, {"boundary": "per0ref1"}),
+    ({"n_steps": None}, {"n_steps": 3, "n_max_steps": 6}),
+]
+
+
+def run_cross_resume(case, make_monitors, key_pred=None, post=None):
+    """Run with options A writing a checkpoint per iteration; a FRESH sampler with options B resumes the first / middle / last checkpoint.
+    Monitors are armed on the resumed run; `post(probe)` yields (key, msg) for the completed resumed run."""
+    from .core import Res
+
+    res = Res()
+    base_cfg = dict(case["cfg"])
+    a_opts, b_opts = case["pair"]
+    cfg_a = dict(base_cfg, **a_opts, save_every=1, output_dir="/memfs/out")
+    fs = MemFS()
+    pa = Probe(cfg_a, base=case["base"], fs=fs)
+    pa.run()
+    res.evals += 1
+    if pa.exc is not None:
+        res.bump("writer_run_aborted")
+        return res
+    cks = sorted((k for k in fs.files if k.endswith(".state") and not k.endswith("_final.state")), key=lambda s_: int(s_.rsplit("_", 1)[1].split(".")[0]))
+    pick = sorted(set([cks[0], cks[len(cks) // 2], cks[-1]])) if cks else []
+    if case.get("only"):
+        pick = [case["only"]]
+    for path in pick:
+        it0 = int(path.rsplit("_", 1)[1].split(".")[0])
+        cfg_b = dict(base_cfg, **a_opts)
+        cfg_b.update(b_opts)
+        cfg_b["n_total"] = case.get("n_total_b", 2 * base_cfg["n_total"])  # a larger target: the resumed run has iterations of its own
+        pb = Probe(cfg_b, base=case["base"] + 31, fs=fs, monitors=make_monitors(), iter_offset=it0)
+        pb.abstract = set()
+        pb.run(resume_state_path=path)
+        res.evals += 1
+        res.states += pb.events
+        res.trans += pb.events
+        res.traces += 1
+        cc = dict(case, only=path)
+        tag = f" [checkpoint {path} written by a run with {a_opts or 'base options'}, resumed by a fresh sampler with {b_opts}; base cfg={base_cfg}]"
+        found = list(pb.viol)
+        if pb.exc is not None:
+            found.append((f"cross-resume:raises:{type(pb.exc).__name__}", f"the resumed run raised {pb.exc!r}", {}))
+        elif post is not None:
+            found += [(k, m, {}) for k, m in post(pb)]
+        seen = set()
+        for key, msg, det in found:
+            if key in seen or (key_pred is not None and not key_pred(key)):
+                continue
+            seen.add(key)
+            res.violate("cross-resume:" + key if not key.startswith("cross-resume:") else key, msg + tag, cc)
+        res.outcome(("cross", repr(a_opts), repr(b_opts), path), nontrivial=True)
     return res
